@@ -48,6 +48,14 @@ def gen(tier, rng):
                     cases.append(rz.resize_case(pt, sw, sh, dw, dh, alg=alg, flt=flt, m=m, alpha=False, box=box, Q=Q, cpu=rz.pick(n, 109, rz.CPUS),
                                                 src_c=c, src_lay={"k": "image_ref", "guard": 1}, log=("minmax",),
                                                 chk=("pipeline", "ret_ok", "range_ulp1" if isf else "range")))
+    if tier != "quick":
+        for i in range(6000):
+            kw = rz.random_resize_kw(rng, algs=[("conv", 1), ("interp", 1), ("ss", 1), ("ss", 2)], filters=NONNEG, maxdim=70)
+            isf = rz.PT[kw["pt"]]["comp"] == "f32"
+            c = dict({"g": "rand", "seed": rng.randint(1, 10 ** 9)}, **sub_range(kw["pt"], rng, rng.choice(modes)))
+            cases.append(rz.resize_case(kw["pt"], kw["sw"], kw["sh"], kw["dw"], kw["dh"], alg=kw["alg"], flt=kw["flt"], m=kw["m"], alpha=False,
+                                        box=kw["box"], Q=kw["Q"], cpu=kw["cpu"], src_c=c, src_lay={"k": "image_ref", "guard": 1}, log=("minmax",),
+                                        chk=("pipeline", "ret_ok", "range_ulp1" if isf else "range")))
     # ordered pairs: B = A + non-negative increments (saturating)
     pair_geoms = geoms[:6]
     for pt in rz.ALL_PT:
